@@ -593,12 +593,13 @@ def rule_R6(ck):
         r = I.call(metacommand_fn(I, ".include"), [state, "x.mac"], {})
         return r, list(got), list(route), [e[1] for e in I.effects if e[0] == "open"]
     try:
-        ps = [p for p in I.explore(thunk2) if p.kind == "return" and p.value[1]]
+        all_ps = I.explore(thunk2)
+        ps = [p for p in all_ps if p.kind == "return" and p.value[1]]
     except Unsupported as ex:
         raise Unknown(f"'.include' handler: {ex}") from None
     ck.instance("include-call", {"compile_include called with": repr(ps[0].value[1]) if ps else None}, fn="metacommands::include")
     if not ps:
-        raise Unknown("'.include' handler: no path reaches compile_include")
+        return ck.incomplete("metacommands::include", "'.include \"x.mac\"' with a readable file (no path reaches compile_include)", all_ps)
     for p in ps:
         r, calls_, route_, opened = p.value
         # the name in the directive is resolved against the including file, that path is the one opened, and the parser gets
@@ -719,6 +720,8 @@ def run(ck):
     ck.run_rule("C02.R4", "length() siblings agree with the values they describe", 4, rule_R4)
     ck.run_rule("C02.R4c", "concatenation algebra of chunks: value(x + y) = value(x) value(y), length additive (17 operand shapes)", 17, rule_R4c)
     ck.run_rule("G1", "deferred thunks capture by value", 20, thunks.rule_G1)
+    from ..rules import route as _route
+    ck.run_rule("BLK.route", "implicit word lists, constants and labels compiled as statements of a block: values, byte order, the label's address", 1, _route.rule_block_route)
     ck.run_rule("C02.R6", "address continuation across included and linked files", 3, rule_R6)
     from ..rules import treeimm
     ck.run_rule("G4.re", "the value of '.' inside an expression is the current statement's, also when the same tree node is compiled again", 15, treeimm.rule_reresolve)
